@@ -79,7 +79,42 @@ claim("C13", "model_checking", "TLC enumerates every token sequence of each rule
       "TLA+ specs RuleSyntax.tla (validity predicates, exhaustive token enumeration by TLC) and Run.tla (FailClosed over "
       "all interleavings); spec->impl replay of every emitted value", "DESIGN.md §6 C13")
 
-for pid in ["C03", "C04", "C05", "C10", "C12", "C14", "C15", "C16", "C17", "C18", "C19", "C20"]:
+claim("C14", "model_checking", "TLC enumerates every -d/-e invocation of Flags.tla (<= MaxArgs flags over the seven names "
+      "and look-alikes; long invocations over three names) with the contract verdict (rejected / effective set; "
+      "order- and multiplicity-free) and model-checks Detect.tla (DetectComplete, OnlyEffective, Conservation) for every "
+      "needs assignment, every effective set and every visiting order; every emitted invocation is run through the CLI on "
+      "generated repositories in which each validator has 0..2 violations (diff mode), repeatedly (fresh HashMap order "
+      "per process); rejected invocations must leave no Lua call log and no AI request; the detector loops of the runs "
+      "are validated by TraceDetect.tla.",
+      "Trusted: repository generator, projection of logged block attributes to the detectors that fire.",
+      "TLA+ specs Flags.tla and Detect.tla model-checked with TLC; spec->impl replay of every invocation through the CLI; "
+      "impl->spec trace validation (TraceDetect.tla, TraceRun.tla)", "DESIGN.md §6 C14")
+claim("C18", "model_checking", RUNTXT + "Invariants: AtMostOnce, ExactlyOnceOnSuccess, OneDiagnosticPerString, FailClosed, "
+      "CompleteOnReport. Scripts use busy-loops to permute completion order; 1/2/16 runtime workers, CPU pinning; error "
+      "classes rotate over runtime error, syntax error, missing validate, non-string results; payload echo runs compare "
+      "ctx.file / ctx.line / attrs / content with the blocks as written; 17..40-block runs with fast failing scripts.",
+      "Trusted: Lua scripts written by the concretiser, the script-side call log (BLOCKWATCH_LUA_MODE=safe). Real "
+      "schedules are sampled, not enumerated; exhaustive interleaving coverage exists at the specification level and "
+      "is tied to the code by trace validation of the sampled runs.",
+      "TLA+ spec Run.tla (LuaTask actions) model-checked with TLC; spec->impl replay of every outcome assignment; "
+      "impl->spec trace validation (TraceRun.tla)", "DESIGN.md §6 C18")
+claim("C19", "model_checking", RUNTXT + "The endpoint is an environment process of Run.tla (reply OK / other text / fault; "
+      "missing key before any send). Invariants: OneRequest, OneDiagnosticPerString, FaultFailsClosed, FailClosed. A "
+      "scripted fake endpoint records every request; fidelity runs compare the recorded request (path, authorization, "
+      "model, user message) byte for byte with the block as written.",
+      "Trusted: the fake endpoint; 5xx/429 (retried by the client) and TLS/proxies are not modelled.",
+      "TLA+ spec Run.tla (AiTask actions, endpoint as environment) model-checked with TLC; spec->impl replay against a "
+      "scripted fake endpoint; impl->spec trace validation (TraceRun.tla)", "DESIGN.md §6 C19")
+claim("C20", "model_checking", "Determinism is an invariant of the nondeterministic specs: Run!Deterministic over every "
+      "interleaving and Detect!DetectComplete over every visiting order (TLC, exhaustive within bounds). Generated "
+      "inputs (Run outcome assignments emitted by TLC; a multi-file diff with modified / new / deleted files in every "
+      "section order; blocks sharing one stateful Lua script) are run repeatedly under varied runtime workers, CPU "
+      "pinning, start directory, file creation order; all runs of an input must agree and match the TLC verdict.",
+      "Real schedules and hash seeds are sampled (R runs per input).",
+      "TLA+ specs Run.tla / Detect.tla model-checked with TLC (determinism as invariant over all schedules); repeated "
+      "replay of TLC-emitted inputs under schedule / order / location variation", "DESIGN.md §6 C20")
+
+for pid in ["C03", "C04", "C05", "C10", "C12", "C15", "C16", "C17"]:
     NA[pid] = "check not built yet in this round (planned, see DESIGN.md §6); not a limit of the technique"
 
 
